@@ -419,3 +419,23 @@ smh_proof!(c03_single_f64_m3, 6, c03_single_item::<f64, 3>());
 smh_proof!(c03_single_f64_m4, 7, c03_single_item::<f64, 4>());
 smh_proof!(c03_single_f32_m3, 6, c03_single_item::<f32, 3>());
 smh_proof!(c03_single_f32_m4, 7, c03_single_item::<f32, 4>());
+
+// =====================================================================================
+// C12 part 1 — two instances built by `new` with equal parameters give bit-identical sketches
+// =====================================================================================
+fn c12_two_instances<F: StepF, const M: usize>() {
+    let mut a = SuperMinHash::<F, u64, NoHashHasher>::new(M, BuildHasherDefault::<NoHashHasher>::default());
+    let mut b = SuperMinHash::<F, u64, NoHashHasher>::new(M, BuildHasherDefault::<NoHashHasher>::default());
+    let x: u64 = kani::any();
+    assert!(strip(a.sketch(&x)).is_some());
+    assert!(strip(b.sketch(&x)).is_some());
+    assert!(same_state_smh(&a, &b));
+    for i in 0..M {
+        assert!(F::bits_eq(a.get_hsketch()[i], b.get_hsketch()[i]));
+    }
+    kani::cover!(a.get_hsketch()[0] >= F::one(), "witness");
+    std::mem::forget(a);
+    std::mem::forget(b);
+}
+smh_proof!(c12_smh_f64_m2, 5, c12_two_instances::<f64, 2>());
+smh_proof!(c12_smh_f32_m3, 6, c12_two_instances::<f32, 3>());
